@@ -95,7 +95,12 @@ class _DatasetClassMixin:
                 setattr(self, key, val.evaluate(options))
 
         self._repr_options = {}
-        for key in sorted(self.__class__.keys(options)):  # type: ignore [attr-defined]
+        keys = sorted(self.__class__.keys(options))  # type: ignore [attr-defined]
+        for key in keys:
+            if any(key.startswith(f"{other}.") for other in keys):
+                # already shown as part of the section or list reported under `other`
+                # (set_dotted_key cannot write into a list)
+                continue
             value = get_dotted_key(key, options)
             set_dotted_key(key, value, self._repr_options)
 
